@@ -1851,3 +1851,218 @@ reg(_CL, "aten::clamp_min", clamp, form="min")
 reg(_CL, "aten::clamp_max", clamp, form="max")
 reg(_CL, "aten::clamp_min.Tensor", clamp, form="min_t")
 reg(_CL, "aten::clamp_max.Tensor", clamp, form="max_t")
+
+# ---------------------------------------------------------------------------------------------
+# F12: pad / pool / conv subset (+ dropout)
+
+
+def pad_nd(qn, form):
+    """constant_pad_nd(self, pad, value=0); pad(self, pad, mode='constant', value=None)."""
+    dts = adm(qn)
+
+    def mk(dt, v):
+        def b(g):
+            rank = {"r1": 1, "0-d": 0}.get(v, g.r.randint(2, 4))
+            shape = g.dims(rank, 2, 4)
+            if v == "size0":
+                shape[0] = 0
+            x = g.t(shape, dt)
+            npairs = {"last-dim": 1, "two-dims": min(2, rank), "all-dims": rank, "r1": 1, "negative-crop": 1, "zero-pad": 1, "size0": 1,
+                      "value": 1, "value-int-on-float": 1, "empty-pad": 0}.get(v, 1)
+            pad = []
+            for _ in range(npairs):
+                pad += [g.r.randint(0, 2), g.r.randint(1, 2)]
+            if v == "negative-crop":
+                pad = [-1, g.r.randint(0, 1)]
+            if v == "zero-pad":
+                pad = [0, 0]
+            a = [x, pad]
+            if form == "constant_pad_nd":
+                if v == "value":
+                    a.append(g.scalar(dt, "any"))
+                if v == "value-int-on-float":
+                    a.append(g.r.randint(1, 5))
+            else:
+                if v in ("value", "value-int-on-float"):
+                    a += ["constant", float(g.r.randint(1, 5)) if v == "value" or not is_float(dt) else g.r.randint(1, 5)]
+                elif v == "mode-explicit":
+                    a += ["constant"]
+            return a, {}
+        return b
+
+    vs = ["last-dim", "two-dims", "all-dims", "r1", "negative-crop", "zero-pad", "size0", "value", "empty-pad"] + \
+         (["mode-explicit"] if form == "pad" else [])
+    for dt in dts:
+        yield S(f"last-dim/{dt}", mk(dt, "last-dim"))
+    for dt in lead(dts):
+        for v in vs[1:]:
+            yield S(f"{v}/{dt}", mk(dt, v))
+        if is_float(dt):
+            yield S(f"value-int-on-float/{dt}", mk(dt, "value-int-on-float"))
+
+
+_P = "padpoolconv"
+reg(_P, "aten::constant_pad_nd", pad_nd, form="constant_pad_nd")
+reg(_P, "aten::pad", pad_nd, form="pad")
+
+
+def pad_modes(qn):
+    """aten::pad with reflect / replicate / circular."""
+    for mode_ in ("reflect", "replicate", "circular"):
+        for dt in ("f32", "f64", "f16"):
+            for nsp in (1, 2):
+                def b(g, mode_=mode_, dt=dt, nsp=nsp):
+                    shape = [g.r.randint(1, 2), g.r.randint(1, 3)] + g.dims(nsp, 3, 5)
+                    pad = []
+                    for _ in range(nsp):
+                        pad += [g.r.randint(0, 2), g.r.randint(1, 2)]
+                    return [g.t(shape, dt), pad, mode_], {}
+                yield S(f"mode={mode_}/spatial={nsp}/{dt}", b)
+
+
+reg(_P + "_modes", "aten::pad", pad_modes)
+
+
+def refl_repl_pad(qn, nsp):
+    dts = adm(qn)
+
+    def mk(dt, v):
+        def b(g):
+            batch = [] if v == "unbatched" else [g.r.randint(1, 2)]
+            shape = batch + [g.r.randint(1, 3)] + g.dims(nsp, 3, 5)
+            pad = []
+            for _ in range(nsp):
+                pad += [g.r.randint(0, 2), g.r.randint(1, 2)]
+            if v == "zero-pad":
+                pad = [0] * (2 * nsp)
+            if v == "one-side":
+                pad = [0, 2] + [0] * (2 * nsp - 2)
+            return [g.t(shape, dt), pad], {}
+        return b
+
+    for dt in dts:
+        yield S(f"batched/{dt}", mk(dt, "batched"))
+    for dt in lead(dts, ("f32",)):
+        for v in ("unbatched", "zero-pad", "one-side"):
+            yield S(f"{v}/{dt}", mk(dt, v))
+
+
+reg(_P, ["aten::reflection_pad1d", "aten::replication_pad1d"], refl_repl_pad, nsp=1)
+reg(_P, ["aten::reflection_pad2d", "aten::replication_pad2d"], refl_repl_pad, nsp=2)
+
+
+def pool(qn, nsp, kind, with_indices=False):
+    """max_pool{n}d(self, kernel, stride=[], padding=0, dilation=1, ceil_mode=False);
+    avg_pool{n}d(self, kernel, stride=[], padding=0, ceil_mode=False, count_include_pad=True[, divisor_override=None])."""
+    dts = [d for d in adm(qn) if is_float(d)]
+
+    def mk(dt, v):
+        def b(g):
+            batch = [] if v == "unbatched" else [g.r.randint(1, 2)]
+            sp = g.dims(nsp, 5, 7)
+            x = g.t(batch + [g.r.randint(1, 3)] + sp, dt, "distinct" if with_indices else "any")
+            k = [g.r.randint(2, 3) for _ in range(nsp)]
+            if v == "kernel-only":
+                return [x, k], {}
+            st = [g.r.randint(1, 2) for _ in range(nsp)]
+            if v == "stride=[]":
+                return [x, k, []], {}
+            if v == "stride":
+                return [x, k, st], {}
+            pd = [1] * nsp
+            if v == "padding":
+                return [x, k, st, pd], {}
+            if kind == "max":
+                if v == "dilation":
+                    return [x, k, st, [0] * nsp, [2] * nsp], {}
+                if v == "ceil_mode":
+                    return [x, [2] * nsp, [2] * nsp, [0] * nsp, [1] * nsp, True], {}
+                if v == "ceil_mode-padding":
+                    return [x, [3] * nsp, [2] * nsp, [1] * nsp, [1] * nsp, True], {}
+            else:
+                if v == "ceil_mode":
+                    return [x, [2] * nsp, [2] * nsp, [0] * nsp, True], {}
+                if v == "ceil_mode-padding":
+                    return [x, [3] * nsp, [2] * nsp, [1] * nsp, True], {}
+                if v == "count_include_pad=False":
+                    return [x, k, st, pd, False, False], {}
+                if v == "ceil-no-include-pad":
+                    return [x, [3] * nsp, [2] * nsp, [1] * nsp, True, False], {}
+                if v == "divisor_override":
+                    return [x, k, st, pd, False, True, 3], {}
+            return [x, k], {}
+        return b
+
+    vs = ["kernel-only", "stride", "stride=[]", "padding", "unbatched", "ceil_mode", "ceil_mode-padding"] + \
+         (["dilation"] if kind == "max" else ["count_include_pad=False", "ceil-no-include-pad"] + (["divisor_override"] if nsp >= 2 else []))
+    for dt in dts:
+        yield S(f"kernel-only/{dt}", mk(dt, "kernel-only"), scale=4.0)
+    for dt in lead(dts, ("f32",)):
+        for v in vs[1:]:
+            yield S(f"{v}/{dt}", mk(dt, v), scale=4.0)
+
+
+reg(_P, "aten::max_pool1d", pool, nsp=1, kind="max")
+reg(_P, "aten::max_pool2d", pool, nsp=2, kind="max")
+reg(_P, "aten::max_pool1d_with_indices", pool, nsp=1, kind="max", with_indices=True)
+reg(_P, "aten::max_pool2d_with_indices", pool, nsp=2, kind="max", with_indices=True)
+reg(_P, "aten::avg_pool1d", pool, nsp=1, kind="avg")
+reg(_P, "aten::avg_pool2d", pool, nsp=2, kind="avg")
+
+
+def conv(qn, nsp, general=False):
+    """conv{n}d(input, weight, bias=None, stride=1, padding=0, dilation=1, groups=1);
+    convolution(input, weight, bias, stride, padding, dilation, transposed, output_padding, groups)."""
+    dts = [d for d in adm(qn) if is_float(d)]
+
+    def mk(dt, v):
+        def b(g):
+            groups = 2 if v == "groups" else 1
+            cin, cout = 2 * g.r.randint(1, 2), 2 * g.r.randint(1, 2)
+            batch = [] if v == "unbatched" else [g.r.randint(1, 2)]
+            sp = g.dims(nsp, 5, 7)
+            k = [g.r.randint(1, 3) for _ in range(nsp)]
+            x = g.t(batch + [cin] + sp, dt, "small")
+            transposed = v.startswith("transposed")
+            w = g.t(([cin, cout // groups] if transposed else [cout, cin // groups]) + k, dt, "small")
+            bias = g.t([cout], dt, "small") if v not in ("no-bias", "bias-omitted") else None
+            st = [2] * nsp if v in ("stride", "transposed-stride-outpad") else [1] * nsp
+            pd = [1] * nsp if v in ("padding", "transposed-padding") else [0] * nsp
+            dl = [2] * nsp if v == "dilation" else [1] * nsp
+            if general:
+                op_ = [1] * nsp if v == "transposed-stride-outpad" else [0] * nsp
+                return [x, w, bias, st, pd, dl, transposed, op_, groups], {}
+            if v == "bias-omitted":
+                return [x, w], {}
+            if v in ("plain", "no-bias", "unbatched") and g.r.random() < 0.5:
+                return [x, w, bias], {}
+            return [x, w, bias, st, pd, dl, groups], {}
+        return b
+
+    vs = ["plain", "no-bias", "stride", "padding", "dilation", "groups", "unbatched"] + (["transposed", "transposed-padding", "transposed-stride-outpad"] if general else ["bias-omitted"])
+    for dt in dts:
+        yield S(f"plain/{dt}", mk(dt, "plain"), scale=20.0)
+    for dt in lead(dts, ("f32",)):
+        for v in vs[1:]:
+            yield S(f"{v}/{dt}", mk(dt, v), scale=20.0)
+
+
+reg(_P, "aten::conv1d", conv, nsp=1)
+reg(_P, "aten::conv2d", conv, nsp=2)
+reg(_P + "_general", "aten::convolution", conv, nsp=2, general=True)
+reg(_P + "_general1d", "aten::convolution", conv, nsp=1, general=True)
+
+
+def dropout(qn, native):
+    for dt in [d for d in adm(qn) if is_float(d)]:
+        for train in (False, True):
+            for p in ((0.0, 0.5) if train else (0.0, 0.5, 1.0)):  # ONNX Dropout's ratio domain is [0, 1)
+                mode = "value" if (not train or p == 0.0) else "shape_only"
+                yield S(f"train={int(train)}/p={p}/{dt}", (lambda g, dt=dt, train=train, p=p: ([g.t(g.shape("nd"), dt), p, train], {})), mode=mode)
+    for dt in lead([d for d in adm(qn) if is_float(d)], ("f32",)):
+        for sc in ("0-d", "size1"):  # eager native_dropout on an empty tensor returns an uninitialised float mask: no oracle there
+            yield S(f"train=0/{sc}/{dt}", (lambda g, dt=dt, sc=sc: ([g.t(g.shape(sc), dt), 0.5, False], {})))
+
+
+reg(_P, "aten::dropout", dropout, native=False)
+reg(_P, "aten::native_dropout", dropout, native=True)
